@@ -5,7 +5,9 @@ import (
 	"go/constant"
 	"go/token"
 	"go/types"
+	"regexp"
 	"sort"
+	"strconv"
 	"strings"
 
 	"golang.org/x/tools/go/ssa"
@@ -697,6 +699,306 @@ func checkVOPCDestinationText(c *core.Ctx, t *InstTables) {
 		if !ok {
 			c.Report(core.Finding{Rule: "R04.36", Pkg: instsPkg, Func: core.FuncName(p), Detail: fmt.Sprintf("vopc-destination:%s", name), Pos: c.Position(r.Pos),
 				Msg: fmt.Sprintf("%s (VOPC opcode %d) is printed with destination %v; the instruction writes %s", name, r.Opcode, sortedKeys(got), want)})
+		}
+	}
+}
+
+// checkVOP2ImplicitVCC (R04.38): the VOP2 instructions that use VCC implicitly name it in their
+// disassembly, because that is how the assembler tells v_addc_u32 v0, vcc, v1, v2, vcc from a
+// three-operand form: v_cndmask_b32 reads it (one trailing vcc), the carry-out adds and subs of
+// GCN3 (opcodes 25..27) write it (one vcc behind the destination), the carry-in forms (28..30)
+// do both. The expectation per opcode is the ISA's; the printer is followed per row.
+var vop2VCCCount = map[int64]int{0: 1, 25: 1, 26: 1, 27: 1, 28: 2, 29: 2, 30: 2}
+
+func checkVOP2ImplicitVCC(c *core.Ctx, t *InstTables) {
+	st := c.Rule("R04.38", "the disassembly of a VOP2 instruction names VCC as often as the instruction uses it implicitly: once for v_cndmask_b32 (the selector) and for the carry-out v_add / v_sub / v_subrev_u32 of opcodes 25..27, twice for the carry-in forms v_addc / v_subb / v_subbrev_u32 (28..30), never for the other rows (a transcribed table). The VOP2 printer function is followed per row of the decode tables with its opcode tests decided; the string concatenations with a constant naming vcc that it executes are counted", 40)
+	pi := NewPkgInfo(c, instsPkg)
+	prt := c.SSAFunc(instsPkg, "InstPrinter.Print")
+	if pi.Pkg == nil || prt == nil {
+		return
+	}
+	var vop2K int64 = -1
+	if k, ok := pi.Pkg.Pkg.Scope().Lookup("VOP2").(*types.Const); ok {
+		vop2K, _ = constant.Int64Val(k.Val())
+	}
+	var p *ssa.Function
+	for _, b := range opReach(prt, isLoadOfField("FormatType"), vop2K) {
+		for _, in := range b.Instrs {
+			if cc := core.CallOf(in); cc != nil {
+				if f := cc.StaticCallee(); f != nil && f.Pkg == pi.Pkg && strings.HasSuffix(f.Name(), "String") && len(f.Blocks) > 0 {
+					p = f
+				}
+			}
+		}
+	}
+	if p == nil {
+		c.Report(core.Finding{Rule: "R04.38", Kind: "anchor", Pkg: instsPkg, Func: "InstPrinter.Print", Detail: "vop2-printer", Msg: "the printer function of the VOP2 format was not found"})
+		return
+	}
+	namesVCC := func(v ssa.Value) bool {
+		k, ok := v.(*ssa.Const)
+		return ok && k.Value != nil && k.Value.Kind() == constant.String && strings.Contains(constant.StringVal(k.Value), "vcc")
+	}
+	seen := map[int64]bool{}
+	for _, r := range t.Rows {
+		if r.Format != "VOP2" || seen[r.Opcode] {
+			continue
+		}
+		seen[r.Opcode] = true
+		name := strings.TrimSpace(r.Name)
+		blocks, _ := rowReachEdges(p, r.Opcode, name)
+		got := 0
+		for _, b := range blocks {
+			for _, in := range b.Instrs {
+				if bo, ok := in.(*ssa.BinOp); ok && bo.Op == token.ADD && (namesVCC(bo.X) || namesVCC(bo.Y)) {
+					got++
+				}
+			}
+		}
+		want := vop2VCCCount[r.Opcode]
+		st.Instances++
+		c.MarkAnalysed(p)
+		st.Ob(got == want)
+		if want > 0 {
+			st.Sample("%s (VOP2 opcode %d): vcc named %d time(s), the instruction uses it %d time(s)", name, r.Opcode, got, want)
+		}
+		if got != want {
+			c.Report(core.Finding{Rule: "R04.38", Pkg: instsPkg, Func: core.FuncName(p), Detail: fmt.Sprintf("vop2-implicit-vcc:%s", name), Pos: c.Position(r.Pos),
+				Msg: fmt.Sprintf("%s (VOP2 opcode %d) is printed with vcc named %d time(s); the instruction uses VCC implicitly %d time(s) (carry-out behind the destination, carry-in / selector behind the sources): the text reads as a different operand list and does not assemble back to this encoding", name, r.Opcode, got, want)})
+		}
+	}
+}
+
+// checkDSOffsetForms (R04.39): decoder and printer agree, row by row, on which DS instructions
+// have two 8-bit offsets (the read2 / write2 / ...st64 forms) and which have one 16-bit offset.
+// The decoder folds OFFSET1 into Offset0 for the one-offset rows; a printer that still shows
+// offset0 / offset1 for such a row prints `ds_read_b64 v[1:2], v0 offset0:520 offset1:2` for
+// `offset:520`.
+var dsTwoAddress = regexp.MustCompile(`^ds_(write2|read2|wrxchg2)(st64)?_`)
+
+func checkDSOffsetForms(c *core.Ctx, t *InstTables) {
+	st := c.Rule("R04.39", "for every DS row of the decode tables the DS decoder and the DS printer treat the offset field alike: where the decoder (followed for the row's opcode, the package helpers it calls included) folds OFFSET1 into Offset0 - one 16-bit offset - the printer (followed for the same opcode) prints the `offset:` form and not `offset0:` / `offset1:`, and where the decoder keeps the two 8-bit offsets apart the printer prints the two-offset form", 100)
+	pi := NewPkgInfo(c, instsPkg)
+	dec := formatFunc(c, pi, "Disassembler.Decode", "DS", "decode")
+	prt := formatFunc(c, pi, "InstPrinter.Print", "DS", "String")
+	if dec == nil || prt == nil {
+		c.Report(core.Finding{Rule: "R04.39", Kind: "anchor", Pkg: instsPkg, Func: "-", Detail: "ds-decoder-printer", Msg: "the decoder or printer function of the DS format was not found"})
+		return
+	}
+	prov := core.NewLocalProv(c)
+	hasConst := func(blocks []*ssa.BasicBlock, sub string) bool {
+		for _, b := range blocks {
+			for _, in := range b.Instrs {
+				for _, op := range in.Operands(nil) {
+					if k, ok := (*op).(*ssa.Const); ok && k.Value != nil && k.Value.Kind() == constant.String && strings.Contains(constant.StringVal(k.Value), sub) {
+						return true
+					}
+				}
+			}
+		}
+		return false
+	}
+	seen := map[int64]bool{}
+	for _, r := range t.Rows {
+		if r.Format != "DS" || seen[r.Opcode] {
+			continue
+		}
+		seen[r.Opcode] = true
+		name := strings.TrimSpace(r.Name)
+		// decoder side
+		folded := false
+		fns := []*ssa.Function{dec}
+		for _, b := range dec.Blocks {
+			for _, in := range b.Instrs {
+				if cc := core.CallOf(in); cc != nil {
+					if cal := cc.StaticCallee(); cal != nil && cal.Pkg == dec.Pkg && len(cal.Blocks) > 0 {
+						fns = append(fns, cal)
+					}
+				}
+			}
+		}
+		for _, fn := range fns {
+			blocks, _ := rowReachEdges(fn, r.Opcode, name)
+			for _, b := range blocks {
+				for _, in := range b.Instrs {
+					if s, ok := in.(*ssa.Store); ok {
+						if f := core.FieldOfAddr(s.Addr); f != nil && f.Name() == "Offset0" && strings.Contains(prov.Of(s.Val), "Offset1") {
+							folded = true
+						}
+					}
+				}
+			}
+		}
+		pblocks, _ := rowReachEdges(prt, r.Opcode, name)
+		two := hasConst(pblocks, "offset0:") || hasConst(pblocks, "offset1:")
+		one := hasConst(pblocks, "offset:")
+		st.Instances++
+		c.MarkAnalysed(prt)
+		ok := (folded && one && !two) || (!folded && two && !one)
+		// and the split itself follows the mnemonic: the two-address forms have two offsets
+		wantTwo := dsTwoAddress.MatchString(name)
+		st.Instances++
+		st.Ob(folded != wantTwo)
+		if folded == wantTwo {
+			c.Report(core.Finding{Rule: "R04.39", Pkg: instsPkg, Func: core.FuncName(dec), Detail: fmt.Sprintf("ds-offset-split:%s", name), Pos: c.Position(r.Pos),
+				Msg: fmt.Sprintf("%s (DS opcode %d) is decoded with %s; the mnemonic says %s", name, r.Opcode, map[bool]string{true: "one 16-bit offset", false: "two 8-bit offsets"}[folded], map[bool]string{true: "two 8-bit offsets (a two-address form)", false: "one 16-bit offset"}[wantTwo])})
+		}
+		st.Ob(ok)
+		if !ok {
+			form := map[bool]string{true: "one 16-bit offset (OFFSET1 folded into Offset0)", false: "two 8-bit offsets"}[folded]
+			shown := "neither form"
+			switch {
+			case one && two:
+				shown = "both forms"
+			case two:
+				shown = "offset0: / offset1:"
+			case one:
+				shown = "offset:"
+			}
+			c.Report(core.Finding{Rule: "R04.39", Pkg: instsPkg, Func: core.FuncName(prt), Detail: fmt.Sprintf("ds-offset-form:%s", name), Pos: c.Position(r.Pos),
+				Msg: fmt.Sprintf("%s (DS opcode %d) is decoded with %s, and %s prints %s for it: an offset of 520 is shown as offset0:520 offset1:2, which is not what the encoding says and does not assemble back to it", name, r.Opcode, form, prt.Name(), shown)})
+		}
+	}
+}
+
+// formatFunc: the function of the package that a FormatType dispatcher (Decode / Print) calls for
+// one format; prefix / suffix narrow the callee by name shape (decode..., ...String).
+func formatFunc(c *core.Ctx, pi *PkgInfo, dispatcher, format, affix string) *ssa.Function {
+	d := c.SSAFunc(pi.Rel, dispatcher)
+	if d == nil || pi.Pkg == nil {
+		return nil
+	}
+	k, ok := pi.Pkg.Pkg.Scope().Lookup(format).(*types.Const)
+	if !ok {
+		return nil
+	}
+	kv, _ := constant.Int64Val(k.Val())
+	var out *ssa.Function
+	for _, b := range opReach(d, isLoadOfField("FormatType"), kv) {
+		for _, in := range b.Instrs {
+			if cc := core.CallOf(in); cc != nil {
+				if f := cc.StaticCallee(); f != nil && f.Pkg == pi.Pkg && len(f.Blocks) > 0 && (strings.HasPrefix(f.Name(), affix) || strings.HasSuffix(f.Name(), affix)) {
+					out = f
+				}
+			}
+		}
+	}
+	return out
+}
+
+// checkPrinterReadsWholeOperand (R04.40): where a printer function shows an operand by reading
+// its raw integer value instead of calling Operand.String(), (1) the operand is an integer on
+// every path that gets there - either the format's decoder never stores a register there, or the
+// read is guarded by a test of the operand's type - and (2) the value is not cut below the width
+// of the field the decoder extracted it from. The SMEM printer showed `uint16(Offset.IntValue)`:
+// 0x0 for every register offset, and the low 16 of a 20 / 21-bit immediate.
+func checkPrinterReadsWholeOperand(c *core.Ctx) {
+	st := c.Rule("R04.40", "a printer function that shows an operand through its raw IntValue does so only for operands that are integers there (the decoder of the same format stores no register operand - getOperand, New[SV]RegOperand - into that field, or the read is dominated by a test of the operand's OperandType), and converts the value to no type narrower than the bit range the decoder extracted for it (the widest extractBits range stored into the field). Decoder and printer are paired through the FormatType dispatch of Decode and Print", 2)
+	pi := NewPkgInfo(c, instsPkg)
+	prov := core.NewLocalProv(c)
+	exRange := regexp.MustCompile(`extractBits\(.*?,(\d+),(\d+)\)`)
+	for _, format := range []string{"SOP2", "SOPK", "SOP1", "SOPC", "SOPP", "SMEM", "VOP1", "VOP2", "VOPC", "VOP3a", "VOP3b", "FLAT", "DS"} {
+		dec := formatFunc(c, pi, "Disassembler.Decode", format, "decode")
+		prt := formatFunc(c, pi, "InstPrinter.Print", format, "String")
+		if dec == nil || prt == nil {
+			continue
+		}
+		// what the decoder stores into each operand field of Inst
+		mayBeReg := map[string]bool{}
+		width := map[string]int{}
+		for _, b := range dec.Blocks {
+			for _, in := range b.Instrs {
+				s, ok := in.(*ssa.Store)
+				if !ok {
+					continue
+				}
+				fld := instFieldOfStore(s)
+				if fld == "" {
+					continue
+				}
+				pv := prov.Of(s.Val)
+				if strings.Contains(pv, "getOperand(") || strings.Contains(pv, "NewSRegOperand(") || strings.Contains(pv, "NewVRegOperand(") {
+					mayBeReg[fld] = true
+				}
+				for _, m := range exRange.FindAllStringSubmatch(pv, -1) {
+					lo, _ := strconv.Atoi(m[1])
+					hi, _ := strconv.Atoi(m[2])
+					if w := hi - lo + 1; w > width[fld] {
+						width[fld] = w
+					}
+				}
+			}
+		}
+		var loads []*ssa.UnOp
+		for _, b := range prt.Blocks {
+			for _, in := range b.Instrs {
+				if u, ok := in.(*ssa.UnOp); ok {
+					loads = append(loads, u)
+				}
+			}
+		}
+		for _, ld := range loads {
+			ok := true
+			if !ok || ld.Op != token.MUL {
+				continue
+			}
+			f := core.LoadedField(ld)
+			if f == nil || f.Name() != "IntValue" {
+				continue
+			}
+			// the operand: Inst.<fld>
+			fa, ok := ld.X.(*ssa.FieldAddr)
+			if !ok {
+				continue
+			}
+			opLd, ok := fa.X.(*ssa.UnOp)
+			if !ok {
+				continue
+			}
+			of := core.LoadedField(opLd)
+			if of == nil {
+				continue
+			}
+			fld := of.Name()
+			st.Instances++
+			c.MarkAnalysed(prt)
+			okReg := true
+			if mayBeReg[fld] {
+				okReg = false
+				for d := ld.Block().Idom(); d != nil; d = d.Idom() {
+					iff, isIf := d.Instrs[len(d.Instrs)-1].(*ssa.If)
+					if !isIf {
+						continue
+					}
+					cond, _ := stripNot(iff.Cond)
+					if bo, isB := cond.(*ssa.BinOp); isB {
+						for _, v := range []ssa.Value{bo.X, bo.Y} {
+							if tf := core.LoadedField(core.StripConv(v)); tf != nil && tf.Name() == "OperandType" {
+								okReg = true
+							}
+						}
+					}
+				}
+			}
+			st.Ob(okReg)
+			if !okReg {
+				c.ReportAt("R04.40", prt, ld.Pos(), fmt.Sprintf("raw-value-of-register-operand:%s:%s", format, fld), fmt.Sprintf("%s shows Inst.%s through its IntValue, but decode%s can store a register operand there: a register is printed as the number 0 (s_load_dword s0, s[2:3], s4 prints as ..., 0x0)", prt.Name(), fld, format))
+			}
+			okW := true
+			var at ssa.Instruction
+			if ld.Referrers() != nil && width[fld] > 0 {
+				for _, r := range *ld.Referrers() {
+					if cv, ok := r.(*ssa.Convert); ok {
+						if w, _, ok := typeWidth(cv.Type()); ok && w < width[fld] {
+							okW, at = false, cv
+						}
+					}
+				}
+			}
+			st.Ob(okW)
+			if !okW {
+				c.ReportAt("R04.40", prt, at.Pos(), fmt.Sprintf("operand-value-truncated:%s:%s", format, fld), fmt.Sprintf("%s converts Inst.%s.IntValue to %s, but decode%s extracts %d bits for it: the disassembly shows only the low bits of a larger value", prt.Name(), fld, at.(ssa.Value).Type().String(), format, width[fld]))
+			}
 		}
 	}
 }
